@@ -566,9 +566,14 @@ def judgeRead (rep : Report) (id tag : String) (cfg : Cfg) (bytes : Bytes) (fail
         match src with
         | none => return rep
         | some S =>
-          match diffFiles F { S with topo := F.topo } with
+          -- a topology-checked read into a hexahedral mesh stores each cell in the x/y/z convention: the stored list may
+          -- be a permutation of the written one (C16); compare cell by cell up to order in that configuration
+          let S' : File := { S with topo := F.topo }
+          let hexReordered := cfg.kind == .hex && cfg.topoCheck && F.cells.length == S'.cells.length &&
+            (List.range F.cells.length).all (fun i => OVM.sortL (F.cells.getD i []) == OVM.sortL (S'.cells.getD i []))
+          match diffFiles F (if hexReordered then { S' with cells := F.cells } else S') with
           | some why => return rep.fail id "not-the-source-mesh" s!"read result vs source mesh: {why} [{tag}]" bytes
-          | none => return rep.bump "equals_source"
+          | none => return rep.bump (if hexReordered && F.cells != S'.cells then "equals_source_up_to_hex_reordering" else "equals_source")
 
 /-! ### result files -/
 
